@@ -41,3 +41,4 @@ CFG = {'level': 'exploration',
  'assumptions': ['the strict parser reads the formatted result correctly (guarded by C02/C20)',
                  'operations receive valid arguments only; Cleanup is called before every bulk set and at the end',
                  'no leading comment on retract blocks in generated files (domain restriction, see known findings)']}
+CFG['level_text'] += ' Replace targets include the bare `.` and `..`; rationales include ones beginning with an empty line.'
